@@ -292,5 +292,5 @@ class WantSpec(Spec):
 
 def specs(tier):
     if tier == 'thorough':
-        return [WantSpec('want-len3', 3), WantSpec('want-len4', 4, 6, min_len=4)]
+        return [WantSpec('want-len3', 3), WantSpec('want-len4', 4, 5, min_len=4)]
     return [WantSpec('want-len2', 2), WantSpec('want-len3', 3, 4, min_len=3)]
